@@ -47,7 +47,7 @@ def gen_workload(tape, spec, pil):
                 'seed': tape.int('seed', 0, 2 ** 20), 'n_samples': tape.int('n_samples', 12, 30),
                 'output_names': [], 'objective': {'max_iter': tape.int('max_iter', 2, 3)}}
     if meth == 'rejection':
-        wl = sr.gen_rejection_workload(tape, spec, pil)
+        wl = sr.gen_rejection_workload(tape, spec, pil, allow_failure=True)
     elif meth == 'smc':
         wl = sr.gen_smc_workload(tape, spec, pil)
     else:
